@@ -23,9 +23,10 @@ class Parser:
             expr = regex.EPSILON
         else:
             expr = self._parse_top()
-            while not self.at_end():
-                expr2 = self._parse_top()
-                expr = expr + expr2
+            if not self.at_end():
+                raise ValueError(
+                    f"Unexpected {self.current()} at position {self.pos}"
+                )
         return expr
 
     def current(self):
@@ -78,7 +79,14 @@ class Parser:
         return expr
 
     def _parse_and(self):
-        return self._parse_element()
+        """Parse a concatenation of one or more elements.
+
+        Concatenation binds tighter than alternation: 'ab|c' is '(ab)|c'.
+        """
+        expr = self._parse_element()
+        while not (self.at_end() or self.peek("|") or self.peek(")")):
+            expr = expr + self._parse_element()
+        return expr
 
     def _parse_element(self):
         """Parse single element of regex"""
